@@ -533,6 +533,11 @@ func (c *Conn) Close() error {
 
 	fr.SetBody(ga)
 
+	// The farewell is a courtesy. A peer that has stopped reading must not
+	// hold Close for ever, neither in its own write nor behind a write loop
+	// that is stuck in one: the deadline ends both.
+	_ = c.c.SetWriteDeadline(time.Now().Add(closeWriteTimeout))
+
 	c.bwLck.Lock()
 
 	_, err := fr.WriteTo(c.bw)
@@ -550,6 +555,9 @@ func (c *Conn) Close() error {
 
 	return err
 }
+
+// closeWriteTimeout bounds how long Close waits to get its GOAWAY out.
+const closeWriteTimeout = time.Second
 
 // Write queues the request to be sent to the server.
 //
